@@ -2,6 +2,10 @@ use serde::{Deserialize, Serialize};
 
 pub type Error = serde_bencode::Error;
 
+/// Maximum nesting of lists and dictionaries accepted by `decode`. KRPC messages are at most four
+/// levels deep (message -> arguments -> `want` list -> string).
+const MAX_DEPTH: usize = 32;
+
 #[inline]
 pub(crate) fn encode<T>(value: &T) -> Result<Vec<u8>, Error>
 where
@@ -15,5 +19,66 @@ pub(crate) fn decode<'de, T>(bytes: &'de [u8]) -> Result<T, Error>
 where
     T: Deserialize<'de>,
 {
+    validate(bytes)?;
     serde_bencode::from_bytes(bytes)
+}
+
+/// Checks the things the deserializer itself does not guard against when fed untrusted input:
+/// it allocates the declared length of every byte string up front (so a short datagram declaring
+/// a huge length would abort the process or panic with capacity overflow) and recurses once per
+/// nesting level (so a datagram of nothing but `l`s would exhaust the stack).
+///
+/// Walks the first value in `bytes` using the same tokenization as the deserializer and fails if
+/// a byte string extends past the end of the input or the nesting is deeper than `MAX_DEPTH`. Any
+/// other malformation is left for the deserializer to report.
+fn validate(bytes: &[u8]) -> Result<(), Error> {
+    let mut pos = 0;
+    let mut depth = 0usize;
+
+    while let Some(&byte) = bytes.get(pos) {
+        pos += 1;
+
+        match byte {
+            b'l' | b'd' => {
+                depth += 1;
+
+                if depth > MAX_DEPTH {
+                    return Err(Error::InvalidValue("nesting too deep".to_owned()));
+                }
+            }
+            b'e' => match depth.checked_sub(1) {
+                Some(new_depth) => depth = new_depth,
+                None => return Ok(()),
+            },
+            b'i' => match bytes[pos..].iter().position(|b| *b == b'e') {
+                Some(len) => pos += len + 1,
+                None => return Err(Error::EndOfStream),
+            },
+            b'0'..=b'9' => {
+                let digits = match bytes[pos..].iter().position(|b| *b == b':') {
+                    Some(len) => &bytes[pos - 1..pos + len],
+                    None => return Err(Error::EndOfStream),
+                };
+                let len: usize = std::str::from_utf8(digits)
+                    .ok()
+                    .and_then(|digits| digits.parse().ok())
+                    .ok_or_else(|| Error::InvalidValue("invalid string length".to_owned()))?;
+
+                pos += digits.len();
+
+                if len > bytes.len() - pos {
+                    return Err(Error::EndOfStream);
+                }
+
+                pos += len;
+            }
+            _ => return Ok(()),
+        }
+
+        if depth == 0 {
+            break;
+        }
+    }
+
+    Ok(())
 }
